@@ -13,6 +13,7 @@
 #include <poll.h>
 #include <set>
 #include <sys/stat.h>
+#include <sys/time.h>
 #include <sys/syscall.h>
 #include <sys/wait.h>
 #include <unistd.h>
@@ -123,7 +124,18 @@ long valgrind_report(std::string &text) {
 static volatile uint64_t g_wd_last_seq = 0;
 static volatile int g_wd_stalled = 0, g_wd_total = 0, g_wd_limit = 0;
 static const int WD_TICK = 5, WD_STALL = 30;
-static void wd_handler(int) {
+// The watchdog counts CPU time of the process (ITIMER_PROF), not wall-clock
+// time: on a machine that is busy with other jobs a worker gets little CPU,
+// and a wall-clock limit would turn that into "hang" verdicts that do not
+// reproduce. A generous wall-clock alarm stays as a fallback for a process
+// that blocks without using CPU. Under memcheck everything is ~50x slower.
+static int g_wd_scale = 1;
+static void wd_handler(int sig) {
+  if (sig == SIGALRM) { // wall-clock fallback
+    signal(SIGALRM, SIG_DFL);
+    raise(SIGALRM);
+    return;
+  }
   const uint64_t seq = now_seq();
   g_wd_total += WD_TICK;
   if (seq == g_wd_last_seq)
@@ -131,22 +143,35 @@ static void wd_handler(int) {
   else
     g_wd_stalled = 0;
   g_wd_last_seq = seq;
-  if (g_wd_stalled >= WD_STALL || g_wd_total >= g_wd_limit) {
+  if (g_wd_stalled >= WD_STALL * g_wd_scale ||
+      g_wd_total >= g_wd_limit * g_wd_scale) {
+    struct itimerval off;
+    memset(&off, 0, sizeof off);
+    setitimer(ITIMER_PROF, &off, nullptr);
     signal(SIGALRM, SIG_DFL);
     raise(SIGALRM);
     return;
   }
-  alarm(WD_TICK);
 }
 static void wd_start(int limit_seconds) {
   g_wd_last_seq = now_seq();
   g_wd_stalled = 0;
   g_wd_total = 0;
   g_wd_limit = limit_seconds;
+  g_wd_scale = on_valgrind() ? 20 : 1;
+  signal(SIGPROF, wd_handler);
   signal(SIGALRM, wd_handler);
-  alarm(WD_TICK);
+  struct itimerval it;
+  it.it_interval.tv_sec = WD_TICK;
+  it.it_interval.tv_usec = 0;
+  it.it_value = it.it_interval;
+  setitimer(ITIMER_PROF, &it, nullptr);
+  alarm((unsigned)(limit_seconds * g_wd_scale * 8));
 }
 static void wd_stop() {
+  struct itimerval off;
+  memset(&off, 0, sizeof off);
+  setitimer(ITIMER_PROF, &off, nullptr);
   alarm(0);
   signal(SIGALRM, SIG_DFL);
 }
@@ -304,6 +329,12 @@ static Outcome run_in_child(Engine &engine, const Json &cse, int timeout) {
     g_scratch.clear();
     engine.setup();
     wd_start(timeout);
+    if (getenv("VERIF_SELFTEST_HANG")) {
+      // self-test of the watchdog: a loop without scheduling points
+      volatile unsigned long spin = 0;
+      for (;;)
+        ++spin;
+    }
     Outcome o = engine.execute(cse);
     wd_stop();
     std::string s = outcome_to_json(o, true).dump();
@@ -954,6 +985,7 @@ int check_main(int argc, char **argv, Engine &engine) {
   }
   int exit_code = 0;
   bool nondeterministic = false;
+  long long watchdog_not_reproduced = 0;
   Json vlist = Json::array();
   Json klist = Json::array();
   std::set< std::string > known_printed;
@@ -1024,6 +1056,18 @@ int check_main(int argc, char **argv, Engine &engine) {
           break;
         }
       }
+    }
+    if (!det && v.vclass == "hang" && o1.vclass.empty() && o2.vclass.empty() &&
+        o1.hash == o2.hash) {
+      // The watchdog verdict depends on real (CPU) time, the only thing in
+      // a run that the simulator does not control: a run that was killed by
+      // it once and completes twice, identically, in fresh processes was
+      // slow, not stuck. Counted, not a verdict.
+      printf("note: run %llu was stopped by the watchdog in the batch but "
+             "completed in two fresh re-runs (slow machine); not a verdict\n",
+             (unsigned long long)v.index);
+      ++watchdog_not_reproduced;
+      continue;
     }
     if (!det) {
       printf("NONDETERMINISM property=%s index=%llu batch=(%s,%llu) "
@@ -1144,6 +1188,7 @@ int check_main(int argc, char **argv, Engine &engine) {
   cov["batch_wall_s"] = t_batch;
   cov["workers"] = W;
   cov["straggler_runs_killed_after_deadline"] = stragglers;
+  cov["watchdog_kills_not_reproduced"] = watchdog_not_reproduced;
   Json st = Json::object();
   for (auto &kv : stats_sum)
     st[kv.first] = kv.second;
